@@ -77,10 +77,12 @@ Definition check_proof (c : proof_case) : N :=
   let other := sha256 [7; 7] in
   let run (o : vobs) : bool * bool :=
     let '(ks, sibs, qs, rsel, iv, must) := o in
-    let r := if rsel =? 0 then root else other in
+    (* rsel: 0 the final root, 1 an unrelated hash, 2 + j the root after the first j batches (older version) *)
+    let mr := if rsel <? 2 then m else fold_left map_batch (map (map to_op) (firstn (N.to_nat (rsel - 2)) bs)) [] in
+    let r := if rsel =? 0 then root else if rsel =? 1 then other else smt_root hempty hleafk hbranch n mr in
     let mv := verify hempty hleafb hbranch bytes_eqb hnull ks sibs (map to_query qs) r (N.to_nat kl) in
     (vnum mv =? iv,
      if must then iv =? 1
-     else if iv =? 1 then (rsel =? 0) && claims_ok m ks (map to_query qs) else true) in
+     else if iv =? 1 then negb (rsel =? 1) && claims_ok mr ks (map to_query qs) else true) in
   let rs := map run obs in
   code (agree_prove && forallb fst rs) (forallb snd rs).
